@@ -396,7 +396,9 @@ def _forwarders(e: Engine, cq: str):
         for nm, m in meths.items():
             if nm in out:
                 continue
-            params = m.params[1:]
+            # (a static method has no receiver in front)
+            params = m.params[1:] if m.params[:1] in (['self'], ['cls']) \
+                else list(m.params)
             for r in walk_own(m.node):
                 if not (isinstance(r, ast.Return) and
                         isinstance(r.value, ast.Call)):
